@@ -41,6 +41,8 @@ func init() {
 			Run: func(P *Program, R *Report) { inPlaceDisciplineRule(P, R, "C17.i", "keyproof.ValidKeyProof", "keyproof.ValidKeyProofStructure", "keyproof.PedersenProof", "keyproof.RangeProof", "keyproof.Proof") }},
 		Rule{ID: "C17.j", Explain: "range parameters: every range-proof structure built in keyproof (newPedersenRangeProofStructure calls and rangeProofStructure literals) has l1 = 0 and l2 = exactly one bit-length quantity (a bitlen parameter or field, or |N|) - never a widened expression; the four copies of the generator range structure in the prime proof (prover, fake prover, structure check, commitments) agree.",
 			Run: func(P *Program, R *Report) { rangeParametersRule(P, R) }},
+		Rule{ID: "C17.k", Explain: "sub-structures are complete: in package keyproof every slice made with a computed length and filed in a struct field (the per-square, per-bit and per-step sub-structures, commitments and proofs) has every element visited by a full walk - a loop from 0 by 1 over a collection of that length or up to that count - that stores into or hands out element i. A walk that starts at 1 leaves element 0 at its zero value: an empty relation that nobody proves or checks (for instance the representation proof of the first square), while every honest proof still verifies.",
+			Run: func(P *Program, R *Report) { madeSlicesFilledRule(P, R, "C17.k", "keyproof", 0) }},
 		Rule{ID: "C17.g", Explain: "CanProve tests the residue conditions and safe primality (C16.f).",
 			Run: func(P *Program, R *Report) { canProveRule(P, R, "C17.g") }},
 	)
@@ -1285,4 +1287,170 @@ func appendedSingle(c *ssa.Call) ssa.Value {
 		return nil
 	}
 	return elem
+}
+
+// loopTrip: what a full walk `for i := 0; i < bound; i++` / `for i := range coll` of l runs over: the collection's
+// descriptor (kind "coll") or the bound's descriptor (kind "count"); "" when l is not a walk from 0 by 1.
+func loopTrip(l *Loop) (kind, d string) {
+	blocks := append([]*ssa.BasicBlock{l.Header}, l.Latch...)
+	for b := range l.Body {
+		for _, ins := range b.Instrs {
+			if nx, ok := ins.(*ssa.Next); ok && (b == l.Header || l.Header.Dominates(b)) {
+				if r, ok := nx.Iter.(*ssa.Range); ok && innermostLoopOf(b) != nil && innermostLoopOf(b).Header == l.Header {
+					return "coll", desc(r.X)
+				}
+			}
+		}
+	}
+	for _, b := range blocks {
+		for _, ins := range b.Instrs {
+			bo, ok := ins.(*ssa.BinOp)
+			if !ok || bo.Op != token.LSS {
+				continue
+			}
+			x := stripConv(bo.X)
+			if add, isAdd := x.(*ssa.BinOp); isAdd && add.Op == token.ADD {
+				if k, isC := constInt(add.Y); isC && k == 1 {
+					x = add.X // rotated form / range index: i+1 < bound
+				}
+			}
+			ph, isPhi := x.(*ssa.Phi)
+			if !isPhi || !isInduction(ph) || !l.Body[ph.Block()] {
+				continue
+			}
+			if c, ok := bo.Y.(*ssa.Call); ok && isCallTo(c, "builtin:len") {
+				return "coll", desc(callArgs(c)[0])
+			}
+			return "count", desc(bo.Y)
+		}
+	}
+	return "", ""
+}
+
+// fieldKeyOf: "pkg.T.F" for the descriptors "<pkg.T>.F" and "new:pkg.T.F" of a direct field; "" otherwise.
+func fieldKeyOf(d string) string {
+	if strings.HasPrefix(d, "new:") {
+		d = strings.TrimPrefix(d, "new:")
+	} else if strings.HasPrefix(d, "<") && strings.Contains(d, ">.") {
+		d = strings.Replace(strings.TrimPrefix(d, "<"), ">.", ".", 1)
+	} else {
+		return ""
+	}
+	if strings.ContainsAny(d, "[]()<>#") || strings.Count(d, ".") != 2 {
+		return ""
+	}
+	return d
+}
+
+// madeSlicesFilledRule: in package pkg, every slice that is made with a computed length and filed in a struct field
+// has its elements visited by a full walk - a loop from 0 by 1 over a collection of that length or up to that very
+// count - that stores into, or hands out the address of, element i. Lengths are compared by class: a field's class is
+// the length it is made with (program-wide: `rootsRange: make([]T, len(Squares))` puts rootsRange, and every field
+// made with len(s.rootsRange) or len(s.squares) anywhere, in the class of the constructor's Squares). A walk that
+// starts later leaves the first element at its zero value: for the sub-structures of a key proof, a relation nobody
+// checks.
+func madeSlicesFilledRule(P *Program, R *Report, rule, pkg string, floor int) {
+	type made struct {
+		fn     *ssa.Function
+		target string
+		lenV   ssa.Value
+		st     *ssa.Store
+		class  string
+	}
+	var mades []*made
+	for _, fn := range P.AllFuncs {
+		if fn.Blocks == nil || fn.Pkg == nil || shortPkg(fn.Pkg.Pkg.Path()) != pkg || strings.HasSuffix(P.Pos(fn.Pos()), "_test.go") {
+			continue
+		}
+		allInstrs(fn, func(i ssa.Instruction) {
+			st, ok := i.(*ssa.Store)
+			if !ok {
+				return
+			}
+			ms, ok := st.Val.(*ssa.MakeSlice)
+			if !ok {
+				return
+			}
+			if _, isFA := st.Addr.(*ssa.FieldAddr); !isFA {
+				return
+			}
+			if _, isC := constInt(ms.Len); isC || ms.Len != ms.Cap {
+				return // fixed size, or made empty with a capacity (filled by append)
+			}
+			mades = append(mades, &made{fn: fn, target: desc(st.Addr), lenV: ms.Len, st: st})
+		})
+	}
+	fieldClass := map[string]string{}
+	local := func(fn *ssa.Function, d string) string {
+		if strings.Contains(d, "arg#") || !strings.HasPrefix(d, "<") {
+			return d + "@" + FuncKey(fn)
+		}
+		return d
+	}
+	collClass := func(fn *ssa.Function, d string) string {
+		if k := fieldKeyOf(d); k != "" {
+			if c, ok := fieldClass[k]; ok {
+				return c
+			}
+		}
+		return "coll:" + local(fn, d)
+	}
+	lenClass := func(fn *ssa.Function, v ssa.Value) string {
+		if c, ok := v.(*ssa.Call); ok && isCallTo(c, "builtin:len") {
+			return collClass(fn, desc(callArgs(c)[0]))
+		}
+		return "count:" + local(fn, desc(v))
+	}
+	for pass := 0; pass < 4; pass++ {
+		for _, m := range mades {
+			m.class = lenClass(m.fn, m.lenV)
+			if k := fieldKeyOf(m.target); k != "" {
+				fieldClass[k] = m.class
+			}
+		}
+	}
+	for _, m := range mades {
+		fn := m.fn
+		visited := false
+		var partial []string
+		allInstrs(fn, func(i ssa.Instruction) {
+			ia, ok := i.(*ssa.IndexAddr)
+			if !ok || (desc(ia.X) != m.target && ia.X != m.st.Val) {
+				return
+			}
+			l := innermostLoopOf(ia.Block())
+			for l != nil && desc(ia.Index) != inductionName(l.Header) {
+				// (the element may be addressed in a loop nested inside the walk)
+				var outer *Loop
+				for h := l.Header.Idom(); h != nil; h = h.Idom() {
+					if o := findLoop(h); o != nil && len(o.Latch) > 0 && o.Body[l.Header] {
+						outer = o
+						break
+					}
+				}
+				l = outer
+			}
+			if l == nil {
+				return
+			}
+			kind, d := loopTrip(l)
+			c := ""
+			switch kind {
+			case "coll":
+				c = collClass(fn, d)
+				if d == m.target || d == desc(m.st.Val) {
+					c = m.class
+				}
+			case "count":
+				c = "count:" + local(fn, d)
+			}
+			if c != "" && c == m.class {
+				visited = true
+			} else {
+				partial = append(partial, fmt.Sprintf("%s: walk of class %q, made with %q", P.Pos(ia.Pos()), c, m.class))
+			}
+		})
+		R.decide(rule, FuncKey(fn)+":filled("+m.target+")", "every element of the made slice is visited by a full walk (from 0 by 1, over a collection of the made length)", visited, strings.Join(partial, "; "), P.Pos(m.st.Pos()))
+	}
+	R.decide(rule, pkg+":made-slices", fmt.Sprintf("made slices filed in struct fields were found (>= %d)", floor), len(mades) >= floor, fmt.Sprintf("%d", len(mades)), "")
 }
